@@ -77,6 +77,8 @@ def classify(diff):
         return "empty-collection-absent"
     if a == "<absent>" and b in ([], {}):
         return "empty-collection-added"
+    if b == "<absent>" and a == "0001-01-01T00:00:00Z":
+        return "zero-time-for-absent-member"
     if b == "<absent>" and a is None:
         return "null-member-absent"
     if a == "<absent>" and b is None:
@@ -151,7 +153,10 @@ def has_nested_maps(schema):
 def run(ctx, verdict, replay=None, model_ok=True):
     rng = ctx.rng
     thorough = ctx.tier == "thorough"
-    batch = gencode_py.PyBatch(ctx, "c11")
+    # Go is generated with the JSON marshaller alone (C11 compares encoding/json behaviour; Equals / Validate / the
+    # strict decoder are C13 / C08 / C01's business and must not keep a package from compiling here)
+    batch = gencode_py.PyBatch(ctx, "c11", go_opts={"generate_json_marshaller": True},
+                               driver_template=os.path.join(core.VERIF, "drivers", "go_c11", "main.go"))
     texts, plan, replay_jobs = {}, [], []
 
     def add_text(pkg, fmt, text):
@@ -265,6 +270,18 @@ def run(ctx, verdict, replay=None, model_ok=True):
             cause += ":typing.Union[]"
         verdict.propfail({"kind": "python-module-not-usable", "cause": cause}, payload(i, extra={"observed": r}))
 
+    # ---- a Go package that does not compile produces no JSON at all
+    from checks import c10 as _c10, c13 as _c13
+    for sid, err in list(batch.compile_errors.items())[:5]:
+        cause = _c10.go_compile_cause(err)
+        if cause == "other":
+            cause = _c13.compile_cause(err)
+        i0 = [i for i, j in enumerate(jobs) if j["sid"] == sid]
+        verdict.propfail({"kind": "go-package-does-not-compile", "cause": cause},
+                         payload(i0[0], extra={"observed": err[:1500]}) if i0 else
+                         {"job": {"fmt": batch.schemas[sid][1], "pkg": sid, "schema_text": texts[sid], "type": "Root", "docs": [], "meta": {}},
+                          "observed": err[:1500]})
+
     # ---- hypothesis: accepted by the source schema's own validator
     items = [{"fmt": batch.schemas[jobs[i]["sid"]][1], "path": batch.schema_path(jobs[i]["sid"]), "type": jobs[i]["type"],
               "docs": jobs[i]["docs"]} for i in live]
@@ -357,7 +374,8 @@ def run(ctx, verdict, replay=None, model_ok=True):
                     counts["python_roundtrip_differs"] += 1
                     py_rt_groups.add(i)
                     nested = bool(s) and has_nested_maps(s)
-                    cls_ = (lambda y: "map-of-maps-of-non-scalars:wrong-entry" if nested and classify(y) not in ("date-time-reformatted", "byte-array-printed-as-base64-string") and len(y[0]) >= 3 else classify(y))
+                    # Python keeps leaves untouched: below a map of maps ANY changed leaf is another entry's value
+                    cls_ = (lambda y: "map-of-maps-of-non-scalars:wrong-entry" if nested and len(y[0]) >= 3 else classify(y))
                     for cause in sorted({cls_(y) for y in df}):
                         one = [y for y in df if cls_(y) == cause][0]
                         report({"kind": "python-roundtrip-differs", "cause": cause, "fragment": "safe" if i in rt_safe_fail else "excluded"},
